@@ -127,7 +127,7 @@ def replay_playback(cwd, package, target_dir, hname, logdir, timeout=5400):
 def run_part(prop, pi, part, hdir, tier, seed, args, logdir):
     """-> dict(results=[...], funcs=[...], build_s=..)  (raises Inconclusive)"""
     engine = part['engine']
-    family = part.get('family', f'slice-{prop}-{pi}')
+    family = part.get('family', f'slice-{prop}-{pi}') + os.environ.get('VERIF_FAMILY_SUFFIX', '')
     out = {'results': [], 'funcs': [], 'build_s': 0.0, 'part': part}
     with core.FamilyLock(family):
         try:
@@ -141,7 +141,7 @@ def run_part(prop, pi, part, hdir, tier, seed, args, logdir):
                 for i, j in enumerate(part['inject']):
                     dst = os.path.join(hcopy, prop + '_' + os.path.basename(j['file']))
                     shutil.copy2(os.path.join(hdir, j['file']), dst)
-                    inj.append((j['into'], dst, j.get('mod', f'verif_{prop.lower()}_{i}')))
+                    inj.append((j['into'], dst, j.get('mod', f'verif_{prop.lower()}_{i}'), j.get('vis', '')))
                 for extra in part.get('support', []):
                     shutil.copy2(os.path.join(hdir, extra), os.path.join(hcopy, os.path.basename(extra)))
                 core.inject(cwd, inj, family)
@@ -169,7 +169,7 @@ def run_part(prop, pi, part, hdir, tier, seed, args, logdir):
                 for b in names:
                     if a != b and a in b:
                         raise SystemExit(f'harness name {a} is a substring of {b}')
-            tmo = part.get('timeout', {}).get(tier, 900 if tier == 'quick' else 7200)
+            tmo = args.timeout or part.get('timeout', {}).get(tier, 900 if tier == 'quick' else 7200)
             mem = part.get('mem_gb', {}).get(tier, 16 if tier == 'quick' else 40)
             jobs = min(args.jobs, part.get('max_jobs', {}).get(tier, args.jobs), len(sel))
             log(f'[{prop}] part {pi} ({engine}): {len(sel)} harnesses, tier {tier}, {jobs} parallel, '
@@ -180,10 +180,13 @@ def run_part(prop, pi, part, hdir, tier, seed, args, logdir):
             m = re.search(r'Finished `\w+` profile.*? in ([0-9.]+)s', r['out'])
             out['build_s'] = float(m.group(1)) if m else 0.0
             if not r['built']:
-                tail = [l for l in r['out'].strip().split('\n') if l.strip()][-40:]
-                errs = [l for l in r['out'].split('\n') if l.startswith('error')][:12]
+                lines = r['out'].split('\n')
+                errs = []
+                for i, l in enumerate(lines):
+                    if l.startswith('error') and len(errs) < 60:
+                        errs += lines[i:i + 7]
                 raise Inconclusive('build failed (anchor drift, or harness does not compile against the '
-                                   'current tree):\n' + '\n'.join(errs) + '\n...\n' + '\n'.join(tail[-15:]))
+                                   'current tree):\n' + '\n'.join(errs))
             blocks = core.split_blocks(r['out'])
             for h in sel:
                 fq = [k for k in blocks if k.split('::')[-1] == h['name']]
@@ -244,9 +247,10 @@ def main(argv=None):
     ap.add_argument('--keep', action='store_true', help='keep the scratch overlay (debug)')
     ap.add_argument('--no-replay', action='store_true')
     ap.add_argument('--no-evidence', action='store_true')
+    ap.add_argument('--timeout', type=int, default=None, help='per-harness timeout override (debug)')
     args = ap.parse_args(argv)
     prop, tier = args.prop, args.tier
-    if tier not in ('quick', 'thorough'):
+    if tier not in ('quick', 'thorough', 'probe'):
         tier = 'quick'
     seed = int(os.environ.get('VERIF_SEED', '0') or 0)
     t0 = time.time()
